@@ -80,8 +80,8 @@ theorem wfCls_not_legacy (c : Cls) (h : wfCls c = true) (hp : (c.api == Api.plai
   exact h.2.2
 
 /-- on well-formed classes the code's table and the documented table build the same chain -/
-theorem nodesFrom_code_doc (ex : Bool) (cs : List Cls) (h : cs.all wfCls = true) :
-    ∀ k fz inh, nodesFrom codeOutcome ex k fz inh cs = nodesFrom docOutcome ex k fz inh cs := by
+theorem nodesFrom_code_doc (ex sf : Bool) (cs : List Cls) (h : cs.all wfCls = true) :
+    ∀ k fz inh, nodesFrom codeOutcome ex sf k fz inh cs = nodesFrom docOutcome ex sf k fz inh cs := by
   induction cs with
   | nil => intro k fz inh; rfl
   | cons c rest ih =>
@@ -92,15 +92,15 @@ theorem nodesFrom_code_doc (ex : Bool) (cs : List Cls) (h : cs.all wfCls = true)
     · simp only [hp, if_true]; rw [ih h.2]
     · have hp' : (c.api == Api.plain) = false := by simpa using hp
       simp only [hp', Bool.false_eq_true, if_false]
-      rw [code_eq_doc _ (facts_valid c fz ex) (wfCls_not_legacy c h.1 hp' fz ex), ih h.2]
+      rw [code_eq_doc _ (facts_valid c _ ex) (wfCls_not_legacy c h.1 hp' _ ex), ih h.2]
 
 theorem nodes_code_doc (c : Case) (h : c.chain.all wfCls = true) :
     nodesWith codeOutcome c = nodesWith docOutcome c :=
-  nodesFrom_code_doc c.excBase c.chain h 0 false []
+  nodesFrom_code_doc c.excBase (c.side.any Side.frozen) c.chain h 0 false []
 
 /-- plain classes never get a generated hash (they have no decorator) -/
-theorem nodesFrom_plain_untouched (outF : Facts → Outcome) (ex : Bool) (cs : List Cls) :
-    ∀ k fz inh n, n ∈ nodesFrom outF ex k fz inh cs → n.isAttrs = false →
+theorem nodesFrom_plain_untouched (outF : Facts → Outcome) (ex sf : Bool) (cs : List Cls) :
+    ∀ k fz inh n, n ∈ nodesFrom outF ex sf k fz inh cs → n.isAttrs = false →
       n.outcome = .untouched ∧ n.facts.cacheOn = false ∧ n.facts.slotsEff = false := by
   induction cs with
   | nil => intro k fz inh n hn; simp [nodesFrom] at hn
